@@ -16,10 +16,10 @@ def g(fam, **kw):
     return ['%s:%s:%d' % (fam, name, n) for name, n in kw.items()]
 
 
-V1_QUICK = g('stream', v1good=150, v1corrupt=120, v1struct=120, v1mutate=200, v1trunc=10, v1len=25, v1max=75, v1adj=96, v1lenient=1, v1words=170, v1unicode=156, v1extra=340, v1prefix=66, v1junk=80, v1cr=60, bytes=40)
-V1_THOROUGH = g('stream', v1good=4000, v1corrupt=4000, v1struct=3000, v1mutate=8000, v1trunc=300, v1len=400, v1max=700, v1adj=6144, v1lenient=1, v1words=170, v1unicode=156, v1extra=340, v1prefix=66, v1junk=2500, v1cr=1500, bytes=1000)
-V2_QUICK = g('stream', v2good=120, v2corrupt=150, v2mutate=250, bparse=150, v2ctrl=700, v2len=330, v2sig=60, v2sigmulti=150, v2halves=75, reuse=24, mixed=80, bytes=40, huge=4)
-V2_THOROUGH = g('stream', v2good=3000, v2corrupt=4000, v2mutate=8000, bparse=4000, v2ctrl=65536, v2len=2500, v2sig=3060, v2sigmulti=800, v2halves=300, reuse=400, mixed=2000, bytes=1000, huge=60)
+V1_QUICK = g('stream', v1good=150, v1corrupt=120, v1struct=120, v1mutate=200, v1trunc=10, v1len=25, v1max=75, v1adj=96, v1lenient=1, v1words=170, v1unicode=156, v1extra=340, v1prefix=66, known=140, v1junk=80, v1cr=60, bytes=40)
+V1_THOROUGH = g('stream', v1good=4000, v1corrupt=4000, v1struct=3000, v1mutate=8000, v1trunc=300, v1len=400, v1max=700, v1adj=6144, v1lenient=1, v1words=170, v1unicode=156, v1extra=340, v1prefix=66, known=2000, v1junk=2500, v1cr=1500, bytes=1000)
+V2_QUICK = g('stream', v2good=120, v2corrupt=150, v2mutate=250, bparse=150, v2ctrl=700, v2len=330, v2sig=60, v2sigmulti=150, v2halves=75, reuse=24, known=140, mixed=80, bytes=40, huge=4)
+V2_THOROUGH = g('stream', v2good=3000, v2corrupt=4000, v2mutate=8000, bparse=4000, v2ctrl=65536, v2len=2500, v2sig=3060, v2sigmulti=800, v2halves=300, reuse=400, known=2000, mixed=2000, bytes=1000, huge=60)
 IPTEXT_QUICK = g('iptext', iprand=400)
 IPTEXT_THOROUGH = g('iptext', iprand=20000)
 TLV_QUICK = g('tlv', tlvrand=150, tlvtrunc=150, tlvbig=10, tlvmany=6, tlvprog=60, tlvhuge=6, tlvssl=64, tlvreal=160)
@@ -81,7 +81,7 @@ PROPS = {
         tlaps=[('TlvCursor_proofs', ['TlvCursor'])],
         gens=dict(
             quick=V1_QUICK + g('stream', v2good=60, v2corrupt=60, v2ctrl=300, v2len=120, mixed=60) + TLV_QUICK
-            + g('stream', bigtrail=3, huge=2, pipe=20) + g('builder', bseq=60, rebuild=30, bwire=20) + g('writer', wvals=60, wints=1, wbig=1, wpersist=10, wraw=6) + g('format', fmtshapes=60, fmtrand=60)
+            + g('stream', bigtrail=3, huge=2, pipe=20) + g('builder', bseq=60, rebuild=30, bwire=20) + g('writer', wvals=60, wints=1, wbig=1, wpersist=10, wraw=6) + g('format', fmtshapes=60, fmtrand=60, fmtknown=80)
             + g('convert', cvrand=66),
             thorough=V1_THOROUGH + V2_THOROUGH + TLV_THOROUGH + g('builder', bseq=3000, rebuild=1000, bwire=500)
             + g('writer', wvals=3000, wints=20, wtlv=2) + g('format', fmtshapes=6561, fmtrand=5000) + g('convert', cvrand=2200)),
@@ -118,8 +118,8 @@ PROPS = {
              'non-trivial = a build or parse-back whose payload fits in 65535 bytes; distinct = distinct call sequences',
     ),
     'C08': dict(
-        gens=dict(quick=g('format', fmtshapes=220, fmtrand=300) + IPTEXT_QUICK + g('stream', v1good=100),
-                  thorough=g('format', fmtshapes=6561, fmtrand=30000) + IPTEXT_THOROUGH + g('stream', v1good=3000)),
+        gens=dict(quick=g('format', fmtshapes=220, fmtrand=300, fmtknown=336) + IPTEXT_QUICK + g('stream', v1good=100),
+                  thorough=g('format', fmtshapes=6561, fmtrand=30000, fmtknown=2000) + IPTEXT_THOROUGH + g('stream', v1good=3000)),
         models=[MC_FORMAT, MC_V1, MC_IPTEXT],
         rule='Display of address values (every zero-run shape in thorough, random pairs) parsed back through the four '
              'text entry points, plus Display of parsed headers; every event is non-trivial; distinct = distinct values',
